@@ -194,7 +194,7 @@ class Sim:
         self.kv = kv
         listen = kv.get("listen", "1") == "1"
         self.node = node_mod.Node(kv.get("host", "node.local"), kv.get("realm", "realm.local"),
-                                  ip_addresses=["10.0.0.1"] if listen else None,
+                                  ip_addresses=[f"10.0.0.{i + 1}" for i in range(int(kv.get("addrs", "1")))] if listen else None,
                                   tcp_port=3868 if listen else None, vendor_ids=[10415])
         n = self.node
         for k in ("cea", "cer", "dwa", "idle"):
@@ -441,7 +441,7 @@ class Sim:
         op = t[0]
         n = self.node
         if op == "start":
-            self.env.listen_pending = 1 if n.ip_addresses and n.tcp_port else 0
+            self.env.listen_pending = len(n.ip_addresses) if n.ip_addresses and n.tcp_port else 0
             if len(t) > 1:
                 self.env.dial_plan = t[1].split(",")
             try:
@@ -453,7 +453,8 @@ class Sim:
                 self.conn_sock.setdefault(c, n.peer_sockets.get(c.ident))
             self.settle()
         elif op == "acc":
-            ls = n.tcp_sockets[0]
+            self._acc_n = getattr(self, "_acc_n", -1) + 1
+            ls = n.tcp_sockets[self._acc_n % len(n.tcp_sockets)]        # the listening addresses take turns
             s = VSocket(self.env, "peer")
             ls.accept_queue.append(s)
             before = len(self.conns)
@@ -624,6 +625,7 @@ class Sim:
                 if th.is_alive():
                     live_workers += 1
         self.obs.append(f"RES socketsOpen={open_socks} workersLive={live_workers} crashed={len(self.env.crashes)}")
+        self.obs.append(f"LSN open={sum(1 for s in self.env.sockets if not s.closed and s.kind == 'listen')}")
 
     def close(self):
         self.env.uninstall()
